@@ -31,10 +31,17 @@ MODES = ("fully", "hybrid")
 
 def gen_cases(tier, seed):
     n = 200 if tier == "quick" else 2500
-    return [{"id": f"{MODES[i % 2]}{i}", "mode": MODES[i % 2], "seed": [seed, i], "interleavings": 1 if tier == "quick" else 2} for i in range(n)]
+    cases = [{"id": f"{MODES[i % 2]}{i}", "mode": MODES[i % 2], "seed": [seed, i], "interleavings": 1 if tier == "quick" else 2} for i in range(n)]
+    if tier == "thorough":  # parameters built by the REAL fully_shard (FSDP2) on gloo processes
+        cases += [{"id": f"real{i}", "mode": "real_fully_shard", "seed": [seed, "real", i], "interleavings": 1} for i in range(10)]
+    return cases
 
 
 def run_case(case):
+    if case["mode"] == "real_fully_shard":
+        from . import c07_real
+
+        return c07_real.run(case, kind="fsdp2")
     return c07.run_sharded(case, ID)
 
 
